@@ -88,6 +88,65 @@ func vfC01Wrap(body []byte) []byte {
 
 const vfC01GarbageForms = 5
 const vfC01BadForms = 4
+const vfC01KeyEncodings = 7
+
+// vfC01Uvarint reads a protobuf varint
+func vfC01Uvarint(b []byte) (v uint64, n int) {
+	for i, c := range b {
+		v |= uint64(c&0x7f) << (7 * uint(i))
+		if c < 0x80 {
+			return v, i + 1
+		}
+	}
+	return 0, 0
+}
+
+// vfC01ReencodeKey returns the marshalled public key raw (message PublicKey {Type = 1; Data = 2}) in
+// another VALID protobuf encoding of the same key: form 0 is the canonical one every implementation
+// sends; the others are what a peer is free to send instead.  Whoever parses the key gets the same key
+// object, so the peer ID derived from the key must not depend on the form.
+func vfC01ReencodeKey(raw []byte, form int) []byte {
+	// canonical: 0x08 <type varint> 0x12 <len varint> <data>
+	if len(raw) < 4 || raw[0] != 0x08 {
+		return raw
+	}
+	_, tn := vfC01Uvarint(raw[1:])
+	typ := raw[:1+tn]
+	rest := raw[1+tn:]
+	if tn == 0 || len(rest) < 2 || rest[0] != 0x12 {
+		return raw
+	}
+	l, ln := vfC01Uvarint(rest[1:])
+	if ln == 0 || int(l) != len(rest)-1-ln {
+		return raw
+	}
+	data := rest[1+ln:]
+	cat := func(parts ...[]byte) []byte {
+		var out []byte
+		for _, p := range parts {
+			out = append(out, p...)
+		}
+		return out
+	}
+	switch form % vfC01KeyEncodings {
+	case 1: // a trailing unknown field (field 3, varint)
+		return cat(raw, []byte{0x18, 0x01})
+	case 2: // Data before Type
+		return cat(rest, typ)
+	case 3: // Type repeated (the last occurrence counts)
+		return cat([]byte{0x08, (typ[1] + 1) % 4}, typ, rest)
+	case 4: // the type as a non-minimal varint
+		return cat([]byte{0x08, typ[1] | 0x80, 0x00}, rest)
+	case 5: // an unknown length-delimited field in front
+		return cat([]byte{0x1a, 0x03, 'v', 'f', '!'}, raw)
+	case 6: // the length of Data as a non-minimal varint
+		lb := append([]byte(nil), rest[1:1+ln]...)
+		lb[len(lb)-1] |= 0x80
+		lb = append(lb, 0x00)
+		return cat(typ, []byte{0x12}, lb, data)
+	}
+	return raw
+}
 
 type vfC01Forger struct {
 	ids        vfC01Ids
@@ -177,11 +236,12 @@ func (f *vfC01Forger) payload(v string, g int, victim vfC01Key, static []byte, l
 	m := f.ids.M
 	switch v {
 	case "own":
+		// the attacker speaking for itself, honestly - but free in how it encodes its genuine key
 		sig, err := vfC01SignOver(m, static)
 		if err != nil {
 			return nil, err
 		}
-		return vfC01Marshal(m.raw, sig)
+		return vfC01Marshal(vfC01ReencodeKey(m.raw, g), sig)
 	case "claimM":
 		sig, err := vfC01SignOver(m, static)
 		if err != nil {
@@ -255,6 +315,8 @@ func vfC01Forms(v string) int {
 		return vfC01GarbageForms
 	case "bad":
 		return vfC01BadForms
+	case "own":
+		return vfC01KeyEncodings
 	}
 	return 1
 }
